@@ -12,6 +12,8 @@ func dispatch(t *testing.T, sc scenario) result {
 		return runUtils(sc)
 	case 4:
 		return runNew(sc)
+	case 5:
+		return runJoin(t, sc)
 	default:
 		return result{verdict: "unknown-family"}
 	}
